@@ -7,6 +7,7 @@
   that costs, and the `crash` engine attributes failures inside that window to the listed finding.
 -/
 import AxVerif.Thm.C01
+import AxVerif.Lemmas.Journal
 namespace AxVerif.Recovery
 open AxVerif AxVerif.Durable
 
@@ -126,3 +127,151 @@ theorem split_checkpoint_torn_witness :
     recover (crash (run2 (es ++ [.ckptTruncate])).s) = [("t", [(1, 10)])] := by decide
 
 end AxVerif.Recovery
+
+namespace AxVerif.Recovery
+open AxVerif AxVerif.Durable
+
+/-! ### the journaled checkpoint (as repaired): safe at every crash point, with steal -/
+
+def Sim3 (x : St3) (s : St) : Prop :=
+  match x.phase with
+  | .idle => x.s = s
+  | .pages => x.s = s ∧ s.buf = [] ∧ quiescent s.log = true ∧ x.file = replay s.stable s.log
+  | .done => s = { stable := x.file, log := [], buf := [] }
+  | .dropped => s = { stable := x.file, log := [], buf := [] }
+
+theorem sim3_step (x : St3) (s : St) (e : Ev3) (h : Sim3 x s) :
+    Sim3 (step3 x e) ((emit3 x e).foldl step s) := by
+  cases hp : x.phase with
+  | idle =>
+    have hs : x.s = s := by simpa [Sim3, hp] using h
+    subst hs
+    cases e with
+    | append r => simp [step3, emit3, hp, Sim3]
+    | force => simp [step3, emit3, hp, Sim3]
+    | ack t => simp [step3, emit3, hp, Sim3, step]
+    | scribble g => simp [step3, emit3, hp, Sim3]
+    | ckptDone => simp [step3, emit3, hp, Sim3]
+    | ckptDropLog => simp [step3, emit3, hp, Sim3]
+    | ckptReset => simp [step3, emit3, hp, Sim3]
+    | ckptPages =>
+      by_cases hq : quiescent (x.s.log ++ x.s.buf) = true
+      · simp [step3, emit3, hp, Sim3, step, hq]
+      · simp [step3, emit3, hp, Sim3, step, hq]
+  | pages =>
+    have hs : x.s = s ∧ s.buf = [] ∧ quiescent s.log = true ∧ x.file = replay s.stable s.log := by
+      simpa [Sim3, hp] using h
+    obtain ⟨h1, h2, h3, h4⟩ := hs
+    cases e with
+    | append r => simp [step3, emit3, hp, Sim3, h1, h2, h3, h4]
+    | force => simp [step3, emit3, hp, Sim3, h1, h2, h3, h4]
+    | ack t => simp [step3, emit3, hp, Sim3, step, h1, h2, h3, h4]
+    | scribble g => simp [step3, emit3, hp, Sim3, h1, h2, h3, h4]
+    | ckptPages => simp [step3, emit3, hp, Sim3, h1, h2, h3, h4]
+    | ckptDropLog => simp [step3, emit3, hp, Sim3, h1, h2, h3, h4]
+    | ckptReset => simp [step3, emit3, hp, Sim3, h1, h2, h3, h4]
+    | ckptDone => simp [step3, emit3, hp, Sim3, step, h2, h3, h4]
+  | done =>
+    have hs : s = { stable := x.file, log := [], buf := [] } := by simpa [Sim3, hp] using h
+    cases e with
+    | append r => simp [step3, emit3, hp, Sim3, hs]
+    | force => simp [step3, emit3, hp, Sim3, hs]
+    | ack t => simp [step3, emit3, hp, Sim3, step, hs]
+    | scribble g => simp [step3, emit3, hp, Sim3, hs]
+    | ckptPages => simp [step3, emit3, hp, Sim3, hs]
+    | ckptDone => simp [step3, emit3, hp, Sim3, hs]
+    | ckptDropLog => simp [step3, emit3, hp, Sim3, hs]
+    | ckptReset => simp [step3, emit3, hp, Sim3, hs]
+  | dropped =>
+    have hs : s = { stable := x.file, log := [], buf := [] } := by simpa [Sim3, hp] using h
+    cases e with
+    | append r => simp [step3, emit3, hp, Sim3, hs]
+    | force => simp [step3, emit3, hp, Sim3, hs]
+    | ack t => simp [step3, emit3, hp, Sim3, step, hs]
+    | scribble g => simp [step3, emit3, hp, Sim3, hs]
+    | ckptPages => simp [step3, emit3, hp, Sim3, hs]
+    | ckptDone => simp [step3, emit3, hp, Sim3, hs]
+    | ckptDropLog => simp [step3, emit3, hp, Sim3, hs]
+    | ckptReset => simp [step3, emit3, hp, Sim3, hs]
+
+theorem sim3_run (es : List Ev3) (x : St3) (s : St) (h : Sim3 x s) :
+    Sim3 (es.foldl step3 x) ((glue3From x es).foldl step s) := by
+  induction es generalizing x s with
+  | nil => simpa [glue3From] using h
+  | cons e es ih =>
+    simp only [List.foldl_cons, glue3From, List.foldl_append]
+    exact ih _ _ (sim3_step x s e h)
+
+/-- **With the pre-image journal a crash at any point — between checkpoints with pages already written in place
+    (steal), inside a checkpoint's page writes, between its completion mark, the log truncation and the journal
+    restart — recovers the redo of the durable history**: no window is excluded (compare
+    `split_checkpoint_safe_outside_window`).  For every trace, with any number of checkpoints and any in-place writes. -/
+theorem journaled_checkpoint_safe_at_every_point (es : List Ev3) (hw : WfRecs (appended (glue3 es))) :
+    recover3 (crash3 (run3 es)) = replay [] (durable (glue3 es)) := by
+  have hsim := sim3_run es init3 init (by simp [Sim3, init3])
+  have hrec := recover_crash_eq_replay_durable (glue3 es) hw
+  change Sim3 (run3 es) (run (glue3 es)) at hsim
+  cases hp : (run3 es).phase with
+  | idle =>
+    have : (run3 es).s = run (glue3 es) := by simpa [Sim3, hp] using hsim
+    simp only [recover3, crash3, hp, this]; exact hrec
+  | pages =>
+    have : (run3 es).s = run (glue3 es) := by
+      have := hsim; simp only [Sim3, hp] at this; exact this.1
+    simp only [recover3, crash3, hp, this]; exact hrec
+  | done =>
+    have hs : run (glue3 es) = { stable := (run3 es).file, log := [], buf := [] } := by simpa [Sim3, hp] using hsim
+    rw [← hrec, hs]; simp [recover3, crash3, hp, recover, crash, replay, replayIn]
+  | dropped =>
+    have hs : run (glue3 es) = { stable := (run3 es).file, log := [], buf := [] } := by simpa [Sim3, hp] using hsim
+    rw [← hrec, hs]; simp [recover3, crash3, hp, recover, crash, replay, replayIn]
+
+/-- the trace on which the split checkpoint was torn, now with the journal: every prefix recovers the committed rows once -/
+theorem journaled_checkpoint_witness :
+    let es := [Ev3.append (.op 1 (.crt "t")), .append (.commit 1), .force, .ckptPages, .ckptDone, .ckptDropLog, .ckptReset,
+               .append (.op 2 (.ins "t" 1 10)), .append (.commit 2), .force, .scribble [("t", [(7, 7)])], .ckptPages]
+    (run3 es).phase = .pages ∧ recover3 (crash3 (run3 es)) = [("t", [(1, 10)])] ∧
+    recover3 (crash3 (run3 (es ++ [.ckptDone]))) = [("t", [(1, 10)])] ∧
+    recover3 (crash3 (run3 (es ++ [.ckptDone, .ckptDropLog]))) = [("t", [(1, 10)])] ∧
+    recover3 (crash3 (run3 (es.take 11))) = [("t", [(1, 10)])] := by decide
+
+end AxVerif.Recovery
+
+namespace AxVerif.Journal
+
+/-- **Every trace of journal and page I/O that obeys the protocol rule (`accepts` — the rule the real I/O trace is
+    checked against), cut anywhere, with any prefix `k` of the not-yet-synced journal entries surviving, is restored
+    by `Pager::return_to_checkpoint` to the file of the last checkpoint.** -/
+theorem restore_returns_checkpoint (es : List Ev) (s : St) (h : run init es = some s) (k : Nat) :
+    restore s k = s.ckpt :=
+  restore_of_inv s (run_inv es init s inv_init h) k
+
+/-- every prefix of an accepted trace is accepted (so the theorem covers every crash point of the trace) -/
+theorem accepts_prefix (es : List Ev) (n : Nat) (h : accepts es = true) : accepts (es.take n) = true := by
+  unfold accepts at *
+  suffices ∀ (es : List Ev) (s : St) (n : Nat), (run s es).isSome = true → (run s (es.take n)).isSome = true from
+    this es init n h
+  intro es
+  induction es with
+  | nil => intro s n h; simpa using h
+  | cons e es ih =>
+    intro s n h
+    cases n with
+    | zero => simp [run]
+    | succ n =>
+      simp only [List.take_succ_cons, run] at *
+      split at h
+      · rename_i ha; simp only [ha, if_true]; exact ih _ n h
+      · cases h
+
+/-- the rule is not vacuous: an eviction and a whole checkpoint, as the code issues them -/
+theorem accepts_witness :
+    accepts [.write 0 1, .start 1, .save 0, .jsync, .write 1 5, .write 2 6, .write 0 2, .done, .dropLog, .empty, .start 3,
+             .write 5 9, .save 1, .jsync, .write 1 7] = true ∧
+    (run init [.write 0 1, .start 1, .save 0, .jsync, .write 1 5, .write 2 6, .write 0 2]).map (fun s => restore s 0) = some [1] ∧
+    -- overwriting a checkpointed page that was not saved is rejected
+    accepts [.write 0 1, .start 1, .write 0 2] = false ∧
+    -- … as is dropping the log before the journal is marked done
+    accepts [.write 0 1, .start 1, .save 0, .jsync, .write 0 2, .dropLog] = false := by decide
+
+end AxVerif.Journal
